@@ -180,12 +180,21 @@ func c18Stream(r *Run) {
 func c18Endings(r *Run) {
 	t := r.Tape
 	o := RawOpts{LibClient: t.Draw(2) == 1}
+	if t.Pct(50) {
+		// permessage-deflate: the scripted peer compresses some messages and may
+		// end them with a BFINAL=1 block (RFC 7692 7.2.3.4)
+		o.Mode, o.Ext = modes[1+t.Draw(2)], extChoices[1+t.Draw(len(extChoices)-1)]
+	}
 	rc, err := r.newRawConn("c0", o)
 	if err != nil {
 		r.Violate("handshake-failed", "endings", "%v", err)
 		return
 	}
 	c, peer := rc.C, rc.Peer
+	var comp *wsref.Deflater
+	if rc.Neg.Deflate {
+		comp = &wsref.Deflater{Takeover: rc.PeerTake}
+	}
 	typ := byte(1 + t.Draw(2))
 	ending := t.Draw(5) // 0 close 1000, 1 close 1001, 2 other code, 3 transport cut, 4 wrong type
 	codes := []int{1002, 1003, 1008, 1011, 3000, 4999, 1005}
@@ -217,7 +226,12 @@ func c18Endings(r *Run) {
 		n := []int{0, 5, 300, 5000}[t.Draw(4)]
 		p := Payload{Kind: 3, Len: n, Seed: uint32(i + 1)}.Bytes()
 		want = append(want, p...)
-		stream = append(stream, peer.Encode(MessageFrames(MsgSpec{Typ: typ, Data: p, Frags: SplitFrags(t, n)}, nil)...)...)
+		spec := MsgSpec{Typ: typ, Data: p, Frags: SplitFrags(t, n)}
+		if comp != nil && t.Pct(70) {
+			spec.Compress = true
+			spec.BFinal = t.Pct(40)
+		}
+		stream = append(stream, peer.Encode(MessageFrames(spec, comp)...)...)
 	}
 	switch ending {
 	case 0, 1, 2:
